@@ -33,7 +33,7 @@ LEVEL_TEXT = ('Proof: 28 Lean theorems (no sorry, axioms <= propext/Classical.ch
               'parse_string reads a field from those columns only (write_then_parse_field); integers and names read back exactly, reals as '
               'the printed (correctly rounded, normalised) digits, None as None, for both conversion dictionaries (roundtrip_*); exact width '
               'formulas for %e %f %d %s (the fits lattice); short lines (parse_short_line); and by decide over the four tables regenerated '
-              'from /repo every run (77 record kinds, ~490 fields) that the model computes the real line_spec/spec_width and every field is '
+              'from /repo every run (73 record kinds, 444 fields) that the model computes the real line_spec/spec_width and every field is '
               'well formed (all_tables_wf). Nothing is _partial.')
 LEVEL_NOTE = ('Tie: Gen/Specs.lean is regenerated from the imported modules on every run; the compiled model is diffed against the real '
               'write_values_to_string / parse_string (both read-function dictionaries) on every (table, record, field) x value lattice, text '
